@@ -36,6 +36,9 @@ pub struct Case {
     /// further calls multiplexed concurrently on the same connection
     #[serde(default)]
     pub others: Vec<Other>,
+    /// compression enabled (send + accept) on both peers
+    #[serde(default)]
+    pub comp: Option<crate::infra::wire::Enc>,
 }
 
 #[derive(Clone, Debug, Serialize, Deserialize)]
@@ -127,8 +130,9 @@ pub fn strategy() -> BoxedStrategy<Case> {
                 pipe_schedule(),
                 any::<u64>(),
                 prop_oneof![3 => Just(vec![]).boxed(), 1 => proptest::collection::vec(other(), 1..=3).boxed()],
+                prop_oneof![3 => Just(None).boxed(), 1 => gen::enc().prop_map(Some).boxed()],
             )
-                .prop_map(move |(script, req_md, req_msgs, c2s, s2c, rt_seed, others)| Case { shape, prost, script, req_md, req_msgs, c2s, s2c, rt_seed, others })
+                .prop_map(move |(script, req_md, req_msgs, c2s, s2c, rt_seed, others, comp)| Case { shape, prost, script, req_md, req_msgs, c2s, s2c, rt_seed, others, comp })
         })
         .boxed()
 }
@@ -160,9 +164,15 @@ fn with_md<T>(msg: T, mdv: &[MdEntry]) -> Request<T> {
 }
 
 macro_rules! client_calls {
-    ($fname:ident, $client:ty, $msg:ty) => {
+    ($fname:ident, $fname2:ident, $client:ty, $msg:ty) => {
         pub async fn $fname(ch: tonic::transport::Channel, shape: Shape, req_md: &[MdEntry], msgs: Vec<(Vec<u8>, u8)>) -> Observed {
+            $fname2(ch, shape, req_md, msgs, None).await
+        }
+        pub async fn $fname2(ch: tonic::transport::Channel, shape: Shape, req_md: &[MdEntry], msgs: Vec<(Vec<u8>, u8)>, comp: Option<crate::infra::wire::Enc>) -> Observed {
             let mut client = <$client>::new(ch);
+            if let Some(e) = comp {
+                client = client.send_compressed(e.tonic()).accept_compressed(e.tonic());
+            }
             let mut ob = Observed::default();
             match shape {
                 Shape::Unary | Shape::ClientStream => {
@@ -221,8 +231,8 @@ macro_rules! client_calls {
         }
     };
 }
-client_calls!(calls_raw, vt::raw_client::RawClient<tonic::transport::Channel>, Vec<u8>);
-client_calls!(calls_prost, vt::test_client::TestClient<tonic::transport::Channel>, Msg);
+client_calls!(calls_raw, calls_raw_comp, vt::raw_client::RawClient<tonic::transport::Channel>, Vec<u8>);
+client_calls!(calls_prost, calls_prost_comp, vt::test_client::TestClient<tonic::transport::Channel>, Msg);
 
 pub fn check_status(got: &Status, want: &StatusSpec, tag: &str) -> Result<(), Failure> {
     ensure!(got.code() == Code::from_i32(want.code), "C02/status-code", "{tag}: code {:?}, handler produced {}", got.code(), want.code);
@@ -320,6 +330,7 @@ pub fn run(c: &Case, o: &mut Outcome) -> Result<(), Failure> {
     o.label_if(c.req_msgs.iter().any(|m| m.0.len() > 16384) || c.script.msgs.iter().any(|m| m.data.len() > 16384), "message_over_one_h2_frame");
     o.label_if(c.prost, "prost");
     o.label_if(!c.others.is_empty(), "multiplexed_calls");
+    o.label_if(c.comp.is_some(), "compression_enabled");
     let err_rich = c.script.outcome.as_ref().map(|s| s.details.len() > 0 && !s.md.is_empty()).unwrap_or(false);
     o.nontrivial = (c.script.outcome.is_some() && streaming_resp && c.script.err_kind == Some(ErrKind::StreamItem) && k >= 1) || err_rich || (k >= 2 && small_reads);
 
@@ -331,13 +342,22 @@ pub fn run(c: &Case, o: &mut Outcome) -> Result<(), Failure> {
     let req_md = c.req_md.clone();
     let sh2 = sh.clone();
     let others = c.others.clone();
+    let comp = c.comp;
     let res = rt::run_virtual(c.rt_seed, Duration::from_secs(3600), async move {
         let server = tonic::transport::Server::builder();
         let mut server = server;
         let router = if prost {
-            server.add_service(vt::test_server::TestServer::new(sh2.clone()))
+            let mut s = vt::test_server::TestServer::new(sh2.clone());
+            if let Some(e) = comp {
+                s = s.send_compressed(e.tonic()).accept_compressed(e.tonic());
+            }
+            server.add_service(s)
         } else {
-            server.add_service(vt::raw_server::RawServer::new(sh2.clone()))
+            let mut s = vt::raw_server::RawServer::new(sh2.clone());
+            if let Some(e) = comp {
+                s = s.send_compressed(e.tonic()).accept_compressed(e.tonic());
+            }
+            server.add_service(s)
         };
         let srv = tokio::spawn(async move { router.serve_with_incoming(incoming).await });
         let ch = match net.channel().await {
@@ -351,9 +371,9 @@ pub fn run(c: &Case, o: &mut Outcome) -> Result<(), Failure> {
             let md = vec![MdEntry { name: "x-script".into(), val: crate::infra::blob::hex((i + 1).to_string().as_bytes()) }];
             let msgs: Vec<(Vec<u8>, u8)> = x.req_msgs.iter().map(|(b, p)| (b.bytes(), *p)).collect();
             let sh = x.shape;
-            tasks.push(tokio::spawn(async move { if prost { calls_prost(ch2, sh, &md, msgs).await } else { calls_raw(ch2, sh, &md, msgs).await } }));
+            tasks.push(tokio::spawn(async move { if prost { calls_prost_comp(ch2, sh, &md, msgs, comp).await } else { calls_raw_comp(ch2, sh, &md, msgs, comp).await } }));
         }
-        let ob = if prost { calls_prost(ch, shape, &req_md, req_msgs).await } else { calls_raw(ch, shape, &req_md, req_msgs).await };
+        let ob = if prost { calls_prost_comp(ch, shape, &req_md, req_msgs, comp).await } else { calls_raw_comp(ch, shape, &req_md, req_msgs, comp).await };
         let mut obs_others = vec![];
         for t in tasks {
             match t.await {
